@@ -1,9 +1,11 @@
 pub mod common;
 pub mod c02;
+pub mod c03;
 pub mod c04;
 pub mod c05;
 pub mod c06;
 pub mod c11;
+pub mod c14;
 pub mod c18;
 
 use crate::report::CheckOutput;
@@ -12,10 +14,12 @@ use crate::Ctx;
 pub fn run(id: &str, ctx: &Ctx) -> Option<CheckOutput> {
     Some(match id {
         "C02" => c02::run(ctx),
+        "C03" => c03::run(ctx),
         "C04" => c04::run(ctx),
         "C05" => c05::run(ctx),
         "C06" => c06::run(ctx),
         "C11" => c11::run(ctx),
+        "C14" => c14::run(ctx),
         "C18" => c18::run(ctx),
         _ => return None,
     })
